@@ -4,6 +4,7 @@ package extendeddaemonsetreplicaset
 
 import (
 	"context"
+	corev1 "k8s.io/api/core/v1"
 	"time"
 
 	metav1 "k8s.io/apimachinery/pkg/apis/meta/v1"
@@ -84,4 +85,91 @@ func ZZ_C16_noPanicCanary() {
 	nondet.Observe("accepted", accepted)
 	nondet.Reach("C16.canary-run.accepted", accepted)
 	nondet.Reach("C16.canary-run.rejected", !accepted)
+}
+
+// ZZ_C16_noPanicCompleteSpec: a spec the user wrote out in full — every field
+// IsDefaultedExtendedDaemonSet looks at is set, so defaulting never runs on it — leaves the fields
+// defaulting would ALSO have filled but the recogniser does not check (noRestartsDuration,
+// maxSlowStartDuration, maxRestartsDuration, canaryTimeout, nodeAntiAffinityKeys) absent or set,
+// independently.  A canary is in progress on node0 with a pod that restarted (so that the replica set
+// carries a PodRestarting condition after its sync) or not; auto or manual validation.  Two rounds of
+// {sync of every replica set, ExtendedDaemonSet reconcile, kubelet step} run to completion: no
+// dereference of an absent optional field anywhere.
+func ZZ_C16_noPanicCompleteSpec() {
+	one := intstr.FromInt(1)
+	yes := true
+	two, five := int32(2), int32(5)
+	mode := datadoghqv1alpha1.ExtendedDaemonSetSpecStrategyCanaryValidationModeAuto
+	if nondet.Bool("manualValidation") {
+		mode = datadoghqv1alpha1.ExtendedDaemonSetSpecStrategyCanaryValidationModeManual
+	}
+	canary := &datadoghqv1alpha1.ExtendedDaemonSetSpecStrategyCanary{
+		Replicas: &one, ValidationMode: mode, NodeSelector: &metav1.LabelSelector{},
+		AutoPause: &datadoghqv1alpha1.ExtendedDaemonSetSpecStrategyCanaryAutoPause{Enabled: &yes, MaxRestarts: &two},
+		AutoFail:  &datadoghqv1alpha1.ExtendedDaemonSetSpecStrategyCanaryAutoFail{Enabled: &yes, MaxRestarts: &five},
+	}
+	if mode == datadoghqv1alpha1.ExtendedDaemonSetSpecStrategyCanaryValidationModeAuto {
+		canary.Duration = &metav1.Duration{Duration: 3 * time.Minute}
+		if nondet.Bool("noRestartsDuration.set") {
+			canary.NoRestartsDuration = &metav1.Duration{Duration: time.Minute}
+		}
+	}
+	if nondet.Bool("maxSlowStartDuration.set") {
+		canary.AutoPause.MaxSlowStartDuration = &metav1.Duration{Duration: time.Minute}
+	}
+	if nondet.Bool("maxRestartsDuration.set") {
+		canary.AutoFail.MaxRestartsDuration = &metav1.Duration{Duration: 10 * time.Minute}
+	}
+	if nondet.Bool("canaryTimeout.set") {
+		canary.AutoFail.CanaryTimeout = &metav1.Duration{Duration: time.Hour}
+	}
+	keepNoRestarts, keepSlowStart, keepRestartsDuration, keepTimeout := canary.NoRestartsDuration != nil, canary.AutoPause.MaxSlowStartDuration != nil, canary.AutoFail.MaxRestartsDuration != nil, canary.AutoFail.CanaryTimeout != nil
+	w, ds := zzNewWorld(2, canary)
+	// (zzNewWorld defaults the spec: take out again what the user did not write)
+	if !keepNoRestarts {
+		ds.Spec.Strategy.Canary.NoRestartsDuration = nil
+	}
+	if !keepSlowStart {
+		ds.Spec.Strategy.Canary.AutoPause.MaxSlowStartDuration = nil
+	}
+	if !keepRestartsDuration {
+		ds.Spec.Strategy.Canary.AutoFail.MaxRestartsDuration = nil
+	}
+	if !keepTimeout {
+		ds.Spec.Strategy.Canary.AutoFail.CanaryTimeout = nil
+	}
+	nondet.Assert("C16.complete.recognised-as-given", datadoghqv1alpha1.IsDefaultedExtendedDaemonSet(ds) && datadoghqv1alpha1.ValidateExtendedDaemonSetSpec(&ds.Spec) == nil)
+	// the canary is in progress on node0
+	tB := zzWorldTpl("B")
+	rsB := zzRS("foo-b", w.hashB)
+	rsB.Spec.Template = tB
+	rsB.Annotations = map[string]string{datadoghqv1alpha1.MD5ExtendedDaemonSetAnnotationKey: w.hashB}
+	rsB.CreationTimestamp = metav1.NewTime(nondet.Base().Add(-10 * time.Minute))
+	w.c.ERS = append(w.c.ERS, rsB)
+	ds.Status.Canary = &datadoghqv1alpha1.ExtendedDaemonSetStatusCanary{ReplicaSet: "foo-b", Nodes: []string{zzNodeName(0)}}
+	ds.Status.State = datadoghqv1alpha1.ExtendedDaemonSetStatusStateCanary
+	p := zzPod("b-"+zzNodeName(0), zzNodeName(0), "foo-b", w.hashB, 0, corev1.PodRunning, true, nondet.Base().Add(-9*time.Minute))
+	st := metav1.NewTime(nondet.Base().Add(-9 * time.Minute))
+	p.Status.StartTime = &st
+	restarts := nondet.Int32("canaryPod.restarts", 0, 1)
+	cs := corev1.ContainerStatus{Name: "agent", RestartCount: restarts}
+	if restarts > 0 {
+		cs.LastTerminationState.Terminated = &corev1.ContainerStateTerminated{Reason: "Error", ExitCode: 1, FinishedAt: metav1.NewTime(nondet.Base().Add(-8 * time.Minute))}
+	}
+	p.Status.ContainerStatuses = []corev1.ContainerStatus{cs}
+	w.c.Pods[0] = p
+	for round := 0; round < 2; round++ {
+		var names []string
+		for _, rs := range w.c.ERS {
+			names = append(names, rs.Name)
+		}
+		for _, name := range names {
+			_, _ = zzReconcile(zzReconciler(w.c, false), zzNS, name)
+		}
+		_, _ = w.eds.Reconcile(context.TODO(), reconcile.Request{NamespacedName: types.NamespacedName{Namespace: zzNS, Name: zzEDSName}})
+		zzKubelet(w.c)
+	}
+	w.onePodPerNode("C16.complete.one-pod-per-node")
+	nondet.Observe("active", w.c.EDS[0].Status.ActiveReplicaSet)
+	nondet.Reach("C16.complete.restart-recorded-without-norestartsduration", restarts > 0 && !keepNoRestarts && mode == datadoghqv1alpha1.ExtendedDaemonSetSpecStrategyCanaryValidationModeAuto)
 }
